@@ -61,7 +61,8 @@ impl<C: Cv> CurveDyn for Dyn<C> {
             let same_wire = r.wire_bytes.is_some() && r.wire_bytes == r.proof_bytes;
             let mut pp = p.clone();
             if pp.expect_v == "reject_or_same" {
-                pp.expect_v = if same_wire { "ok".into() } else { "reject".into() };
+                // the identical object: nothing for integrity to say (whether the honest proof is accepted is C01's business)
+                pp.expect_v = if same_wire { "".into() } else { "reject".into() };
             }
             let p = &pp;
             let bad = check_expectations(p, &r.events, &r.pres, &r.vres, &r.decode);
